@@ -17,6 +17,9 @@ def handleSign (op : String) (a : Json) : Option Json :=
         | "sign" => .sign (keyAt o)
         | "extsign" => .extsign (keyAt o)
         | "verify" => .verify { keyAt o with priv := [] }
+        -- a forged key object: the key id of one key, the (well-formed) public material of another
+        | "verifyx" =>
+          .verify { keys.getD (getInt o "mat").toNat Key.zero with keyid := (keys.getD (getInt o "id").toNat Key.zero).keyid, priv := [] }
         | "dumpload" => .dumpload
         | "setname" => .setName (L (getStr o "s"))
         | _ => .corrupt (getInt o "i").toNat
